@@ -554,6 +554,19 @@ class Replay:
                 e_impl = rate * self.volt[s - 1] * self.T
                 self._chk("C02", "charging_rates[%s,%d]*V*T" % (sid(s), t), r["E"][s - 1], e_impl,
                           close(e_impl, r["E"][s - 1]))
+        # the network's own views of the period (what _store_actual_charging_rates and schedulers read)
+        cur = sim.network.current_charging_rates
+        for s in range(1, self.ns + 1):
+            j = self.row(s)
+            self._chk("C02", "network.current_charging_rates[%s]@%d" % (sid(s), t), float(sim.charging_rates[j, t]),
+                      float(cur[j]))
+            ev = sim.network.get_ev(sid(s))
+            self._chk("C01", "network.get_ev[%s].station_id@%d" % (sid(s), t), sid(s) if r["occ"][s - 1] else None,
+                      ev.station_id if ev is not None else None)
+        if self.compare_energy:
+            sess = self.start["sess"]
+            want_active = sorted(sid(sess[i - 1]["st"]) for i in r["occ"] if i and sess[i - 1]["req"] - r["evE"][i - 1] > 60)
+            self._chk("C05", "network.active_station_ids@%d" % t, want_active, sorted(sim.network.active_station_ids))
         if self.compare_energy:
             for i, ev in self.evs.items():
                 ev = self.live_ev(i)
@@ -621,6 +634,9 @@ class Replay:
         self.expected_lim = np.array(net.magnitudes, copy=True)
 
     def _run(self):
+        if self._next("dumpload") is not None:          # a JSON round trip before the first run()
+            self._consume()
+            self.dump_load(self.snapshot())
         while True:
             before = None
             try:
@@ -634,6 +650,9 @@ class Replay:
             else:
                 outcome = "returned"
             if outcome == "returned":
+                if self._next("dumpload") is not None:  # ... and one of the completed simulation
+                    self._consume()
+                    self.dump_load(self.snapshot())
                 r = self._next("done")
                 if r is None:
                     kind = self._peek_kind()
@@ -724,6 +743,15 @@ class Replay:
         self._chk("C01", "event_history", sorted(sh), sorted(ih))
         self._chk("C01", "ev_history", sorted(vid(i) for i in r["seen"]), sorted(sim.ev_history))
         self.compare_pilots(r["pilots"], "pilot_signals")
+        # the labelled views: one column per station id, one row per period
+        pdf, rdf = sim.pilot_signals_as_df(), sim.charging_rates_as_df()
+        for s in range(1, self.ns + 1):
+            j = self.row(s)
+            self._chk("C04", "pilot_signals_as_df[%s]" % sid(s), [float(x) for x in sim.pilot_signals[j]],
+                      [float(x) for x in pdf[sid(s)].tolist()])
+            self._chk("C02", "charging_rates_as_df[%s]" % sid(s), [float(x) for x in sim.charging_rates[j]],
+                      [float(x) for x in rdf[sid(s)].tolist()])
+            self._chk("C04", "index_of_evse[%s]" % sid(s), j, sim.index_of_evse(sid(s)))
         if self.compare_energy:
             w = sim.charging_rates.shape[1]
             for s in range(1, self.ns + 1):
